@@ -1,6 +1,6 @@
 """C09 - at most one event per replaceable address; newer wins, older is refused."""
 from ..srules import S
-from . import lifecycle, storage, txn
+from . import lifecycle, storage, txn, recheck
 from .recheck import lossy_rechecks
 from .C11 import marker_key_exact
 
@@ -19,6 +19,11 @@ ASSUMPTIONS = []
 
 def run(ctx):
     s = S(ctx)
+    # the range scans the queries / address look-ups run on are bounded (until, 00..) .. (since, ff..) with the table's own key builder
+    from . import tables as _tables
+    _puts = _tables.table_ops(ctx, s, ctx.fn("pocket_db::Lmdb::index"), ("put",))
+    _tables.scan_builders(ctx, s, _puts)
+    recheck.address_scans_author_scoped(ctx, s)
     lifecycle.kind_classes(ctx, s)
     lifecycle.replacement_shape(ctx, s)
     storage.gating_checks_use_write_txn(ctx, s)
